@@ -50,6 +50,17 @@ fn logically_equal(a: &DataType, b: &DataType) -> bool {
     }
 }
 
+/// Variant name of the first logical node below projections / sorts / limits /
+/// aliases (the node that decides the output types) — discriminates root causes
+/// of a DataFrame-level type mismatch.
+fn logical_root_name(p: &datafusion::logical_expr::LogicalPlan) -> String {
+    use datafusion::logical_expr::LogicalPlan as L;
+    match p {
+        L::Sort(_) | L::Limit(_) | L::SubqueryAlias(_) | L::Distinct(_) | L::Filter(_) => logical_root_name(p.inputs()[0]),
+        other => format!("{}", other.display()).split([':', ' ']).next().unwrap_or("?").to_string(),
+    }
+}
+
 fn check(case: &Case, run: &PlanRun, out: &mut Outcome) {
     let _ = case;
     for n in &run.nodes {
@@ -74,6 +85,7 @@ fn check(case: &Case, run: &PlanRun, out: &mut Outcome) {
                     let col = b.column(ci);
                     let in_batch_schema = b.schema_ref().field(ci).data_type().clone();
                     if col.data_type() != f.data_type() || &in_batch_schema != f.data_type() {
+                        // (a column of the wrong type is reported once, as a type mismatch; its NULLs are not a second root cause)
                         if reported.insert(format!("type{ci}")) {
                             out.finding(
                                 &n.node,
@@ -81,8 +93,7 @@ fn check(case: &Case, run: &PlanRun, out: &mut Outcome) {
                                 format!("partition {p} batch {bi} column {ci} `{}`: array type {}, batch schema type {}, declared {}", f.name(), col.data_type(), in_batch_schema, f.data_type()),
                             );
                         }
-                    }
-                    if !f.is_nullable() {
+                    } else if !f.is_nullable() {
                         if b.num_rows() > 0 {
                             out.count("non_nullable_columns_checked_on_non_empty_batches", 1);
                         }
@@ -102,15 +113,15 @@ fn check(case: &Case, run: &PlanRun, out: &mut Outcome) {
                     let lf = logical.fields();
                     if lf.len() != b.num_columns() {
                         if reported.insert("lcount".into()) {
-                            out.finding(&n.node, "collected result column count differs from LogicalPlan::schema()", format!("result has {} column(s), logical schema {}", b.num_columns(), lf.len()));
+                            out.finding_keyed("DataFrame: collected result column count differs from LogicalPlan::schema()", &n.node, format!("result has {} column(s), logical schema {}", b.num_columns(), lf.len()));
                         }
                     } else {
                         for (ci, f) in lf.iter().enumerate() {
                             if !logically_equal(f.data_type(), b.column(ci).data_type()) && reported.insert(format!("ltype{ci}")) {
-                                out.finding(
+                                out.finding_keyed(
+                                    &format!("DataFrame: collected result type not logically equivalent to LogicalPlan::schema() [logical plan root {}]", logical_root_name(&run.logical)),
                                     &n.node,
-                                    "collected result type not logically equivalent to LogicalPlan::schema()",
-                                    format!("column {ci} `{}`: collected {}, logical plan says {}", f.name(), b.column(ci).data_type(), f.data_type()),
+                                    format!("column {ci} `{}`: collected {}, DataFrame::schema() / LogicalPlan::schema() says {}", f.name(), b.column(ci).data_type(), f.data_type()),
                                 );
                             }
                         }
@@ -152,7 +163,7 @@ fn main() {
         "C30",
         Level::Exploration,
         "every query of grammar G (tier menus) x the 12 rich databases x the configuration menu (quick: default, target_partitions=3 over 2-partition tables, \
-         sort-merge join + batch_size 2; thorough adds declared-sorted tables): the physical plan is built as the engine would, and every node is executed standalone \
+         sort-merge join + batch_size 2; thorough adds declared-sorted MemTables and sorted Parquet files): the physical plan is built as the engine would, and every node is executed standalone \
          (fresh execution state and TaskContext, all output partitions); every emitted batch is compared with the node's declared schema (column count, exact data type \
          of the array and of the batch schema, no NULL under a non-nullable field) and the root's batches with LogicalPlan::schema() under an independent logical-type \
          equivalence; evaluations = standalone node executions; non-trivial = distinct (query, database, configuration, node) whose execution emitted at least one row",
